@@ -119,6 +119,9 @@ def draw_spec(rng, tier="quick"):
         p["case"] = rng.choice(["upper", "upper", "lower", "mixed", "regional"])
         p["region"] = ((a0 - rng.randint(0, k)) % n, k + rng.randint(0, 3))
         p["case_seed"] = rng.randrange(10 ** 9)
+        # how the record object came to be: made for this text, or an object that held (and was searched, typed, rotated
+        # with) another sequence before the caller gave it this one -- directly or through a copy
+        p["made"] = random.Random(p["case_seed"] + 1).choice(["fresh", "fresh", "fresh", "recycled", "copied"])
     return spec
 
 
@@ -245,7 +248,23 @@ def build(ns, spec, override=None):
             ann["topology"] = spec["topology"]
         if refs:
             ann["references"] = refs
-        rec = CircularRecord(Seq(text), id=ids[j], name=names[j], features=feats, annotations=ann)
+        made = override.get("made", p.get("made", "fresh"))
+        if made == "fresh":
+            rec = CircularRecord(Seq(text), id=ids[j], name=names[j], features=feats, annotations=ann)
+        else:
+            from bounded.common import preuse
+            decoy = (text[5:] + text[:5])[:-2].upper()
+            rec = CircularRecord(Seq(decoy), id=ids[j], name=names[j], annotations=ann)
+            preuse(rec, ns)
+            try:
+                w_ = (Vec if p["role"] == "vector" else Mod)(rec)
+                w_.is_valid(), w_.target_sequence()
+            except Exception:
+                pass
+            if made == "copied":
+                rec = copy.deepcopy(rec)
+            rec.seq = Seq(text)
+            rec.features = feats
         if spec.get("replace_annotations") and spec["topology"] is None:
             rec.annotations = {k_: v_ for k_, v_ in rec.annotations.items() if k_ != "topology"}    # a new mapping, set by the caller
         records.append(rec)
@@ -270,7 +289,7 @@ class Scenario(object):
         return dict(enzyme=s["enzyme"], chain=s["chain"], scar=s["scar"], ids=s["ids_mode"], refs=s["nrefs"], shared_ref=s["shared_ref"],
                     prequery=s.get("prequery"), replace_annotations=s.get("replace_annotations"),
                     twice=s["twice"], unused=bool(s["unused"]), own_source=s["own_source"], topology=s["topology"],
-                    plasmids=[dict(role=p["role"], rot=p["rot"], case=p["case"], length=len(p["text"])) for p in s["plasmids"]],
+                    plasmids=[dict(role=p["role"], rot=p["rot"], case=p["case"], made=p.get("made", "fresh"), length=len(p["text"])) for p in s["plasmids"]],
                     records=[str(x.record.seq) for x in self.ents], supplied=[x.record.name for x in self.supplied])
 
     def prequery(self):
